@@ -186,6 +186,11 @@ def check_item(spec):
         res["findings"].append({"kind": kind, "what": "%d circuits, e.g. %s" % (len(lst), " || ".join(lst[:2])), "cex": {"circuits": lst[:6]}, "replayed": True})
     res["circuits"] = n
     res["skipped"] = skipped
+    # sensitivity: a circuit and the same circuit minus its last gate must be told apart
+    a = circorp.build([["x", [0]], ["cx", [0, 1]], ["h", [2]], ["ccx", [0, 1, 2]]], 3)
+    xs = [z3.Bool("x%d" % i) for i in range(3)]
+    q, _ = qamp.equal_unitaries_query(a.gates, a.gates[:-1], 3, xs)
+    res["negctl"] = st.check(solver, q) == "sat"
     return st.into(res)
 
 
@@ -204,6 +209,7 @@ def coverage(specs, results):
         "skipped_outside_engine": sum(r.get("skipped", 0) for r in results),
         "distinct_nontrivial": total,
         "evaluations": total,
+        "negative_controls": {"run": sum(1 for r in results if "negctl" in r), "detected": sum(1 for r in results if r.get("negctl"))},
         "exhaustive": True,
         "rule": "every circuit is optimized by the real optimizer; equivalence on all basis states is one z3 query (Boolean for classical circuits, exact cyclotomic amplitudes otherwise)",
     }
